@@ -23,7 +23,8 @@ RULE = ("history = client kind x configuration {prefix, default_noreply} x a per
         "test_integration.py pins, not from the server model) stepped in lockstep - every return value / exception "
         "class must equal the model's; a final get_many over the universe must equal the model's live items. "
         "Non-trivial: the history contains a conditional store/cas/incr/delete/touch whose outcome depends on an "
-        "earlier step, or an expiry that elapsed, or a noreply mutation later observed by a read. The noreply flag and default_noreply also occur as truthy / falsy non-bool spellings (1, 'no', 2, [0] / 0, '', 0.0), which count by their truth value. A shallow copy of the client may take over (or be made and dropped) at any point of a history; object values through the module-level pickle serializer, among them values whose pickling stores another object through the same serializer. With a serializer the model holds (payload, flags) and reads it by the python-memcache flag convention written into the check: explicit flags (0 too) override the serializer's, counters are decremented across digit boundaries (the server pads with blanks). Long lives: 2500 (thorough 10 000) steps on one object, and histories whose wall clock starts just before 2**31 or 2**32 seconds, at 4e9, or at 0.5.")
+        "earlier step, or an expiry that elapsed, or a noreply mutation later observed by a read. The noreply flag and default_noreply also occur as truthy / falsy non-bool spellings (1, 'no', 2, [0] / 0, '', 0.0), which count by their truth value. A shallow copy of the client may take over (or be made and dropped) at any point of a history; object values through the module-level pickle serializer, among them values whose pickling stores another object through the same serializer. With a serializer the model holds (payload, flags) and reads it by the python-memcache flag convention written into the check: explicit flags (0 too) override the serializer's, counters are decremented across digit boundaries (the server pads with blanks). Long lives: 2500 (thorough 10 000) steps on one object, and histories whose wall clock starts just before 2**31 or 2**32 seconds, at 4e9, or at 0.5."
+        + " Keys that carry the key prefix themselves (prefix 'k', keys '0', 'k0', 'kk0': every history of three operations, thorough four); numbers that are int subclasses or IntEnum members as expire / delta / delay; explicit flags 4 and 6 (python-memcached's long).  The model serializes by the python-memcache convention written out in the check, never by calling the library's serializer.")
 MANIFEST = {
     "category": "exploration",
     "technique": "model-based (stateful) testing: Hypothesis-generated and bounded-exhaustively enumerated operation histories run against client + memcached model and, in lockstep, against an independent abstract map-with-expiry-and-cas oracle",
